@@ -6,6 +6,7 @@ quantifies over, so they are evaluated symbolically (sa/c06_util.py: template / 
 rules argue by structural induction over the shape of a field type (list / nested struct / Bits leaf).
 """
 import ast
+import copy
 
 from sa.astutil import norm, guards_of, walk_no_nested, parent, preceding_stmts, qualname, stmt_of
 from sa.errors import AnalysisError
@@ -84,9 +85,14 @@ class Helper:
         self.T = Sym(self.tpname)
         self.cases = {}
         self.steps = 0
+        self.extra = {}                  # kind -> [(conditions, value)] : additional return paths of the case
+        self.label = ''
         for k in KINDS:
             v, ev, _ = U.eval_case(m, fobj, k, self.tpname)
-            self.cases[k] = (v, ev)
+            arms = U.alternatives(v)
+            main = arms[-1][1]               # the arm taken when every undecided extra condition is false
+            self.extra[k] = [(c, a) for c, a in arms[:-1] if a != main]
+            self.cases[k] = (main, ev)
             self.steps += ev.steps
         leaf = self.comps('bits')
         self.is_tuple = isinstance(self.cases['bits'][0], Tup)
@@ -113,6 +119,24 @@ class Helper:
 
     def pos(self, pname):
         return self.params.index(pname)
+
+    @property
+    def where(self):
+        return self.qual + self.label
+
+    def variants(self, kinds=None):
+        """the helper itself, then one copy per additional return path (an `if <cond>: return ...` that the
+        kind assumption does not decide): every path has to satisfy the specification of its case"""
+        out = [self]
+        for k in (kinds or KINDS):
+            for conds, val in self.extra[k]:
+                c = copy.copy(self)
+                c.cases = dict(self.cases)
+                c.cases[k] = (val, self.cases[k][1])
+                c.extra = {kk: [] for kk in KINDS}
+                c.label = f" [{k} case, path {U.show_conds(conds)}]"
+                out.append(c)
+        return out
 
 
 class Gen:
@@ -378,8 +402,9 @@ def rule_traversal(repo):
         if id(h) in seen_helpers:
             continue
         seen_helpers.add(id(h))
-        _check_list_case(r, m, h, spec)
-        _check_struct_case(r, m, h, spec)
+        for hv in h.variants():
+            _check_list_case(r, m, hv, spec)
+            _check_struct_case(r, m, hv, spec)
     r.evaluations = A.steps()
     r.require_floor(32)
     return r
@@ -398,7 +423,7 @@ def _proj_problems(h, kind):
 def _check_list_case(r, m, h, spec):
     v, ev = h.cases['list']
     sites = U.rec_sites(v)
-    fn = h.qual
+    fn = h.where
     if not sites:
         r.bad(m, fn, 'list case: element loop', "the list case does not recurse into the elements: list fields are not "
               "traversed", h.fdef.lineno)
@@ -439,7 +464,7 @@ def _check_list_case(r, m, h, spec):
 def _check_struct_case(r, m, h, spec):
     v, ev = h.cases['struct']
     sites = U.rec_sites(v)
-    fn = h.qual
+    fn = h.where
     if not sites:
         if spec['struct'] == 'delegate' and v == h.cases['bits'][0]:
             r.ok(m, fn, 'struct case: treated as one leaf', nontrivial=False,
@@ -704,33 +729,15 @@ def rule_leaf(repo):
                       "traversal results (or contains none)", g.fdef.lineno)
                 continue
             k = next(iter(projs)) or 0
-            # leaf actions (Bits leaf and nested-struct leaf)
-            done = []
-            for kind in ('bits', 'struct'):
-                comps = h.comps(kind)
-                if kind == 'struct' and U.rec_sites(h.cases['struct'][0]):
-                    continue      # recursed field by field: no leaf here
-                if k >= len(comps):
-                    raise AnalysisError(f"{h.qual}: component {k} missing in the {kind} case")
-                t = one_item(comps[k])
-                cons0 = f"generated {fname}: {kind} leaf"
-                if t is None:
-                    r.bad(m, h.qual, cons0, f"the {kind} case emits {show(comps[k])}: not exactly one leaf action",
-                          h.fdef.lineno)
-                    continue
-                if t in done:
-                    r.ok(m, h.qual, cons0 + ' (same template as the Bits leaf)', nontrivial=False)
-                    continue
-                done.append(t)
-                pr, src = leaf_problems(fname, compose(h, t, rec), key)
-                cons = f"{cons0}: {show(t)}"
-                if pr:
-                    r.bad(m, h.qual, cons, '; '.join(pr), h.fdef.lineno)
-                else:
-                    r.ok(m, h.qual, cons)
+            # leaf actions (Bits leaf and nested-struct leaf), on every return path of the case
+            for hv in h.variants(('bits', 'struct')):
+                kinds = ('bits', 'struct') if not hv.label else tuple(kd for kd in ('bits', 'struct')
+                                                                      if hv.label.startswith(f" [{kd} "))
+                _leaf_actions(r, m, hv, kinds, k, fname, rec, key)
             # list case wrapper of clone: a list literal of all element copies
             if fname in ('clone', '__deepcopy__') and gname == '_mk_clone_fn':
-                _clone_list_wrapper(r, m, h)
+                for hv in h.variants(('list',)):
+                    _clone_list_wrapper(r, m, hv)
             # frame
             hl = U.Holes()
             fd, src, err = U.parse_fn(fn, hl)
@@ -795,6 +802,34 @@ def rule_leaf(repo):
     return r
 
 
+def _leaf_actions(r, m, h, kinds, k, fname, rec, key):
+    done = []
+    for kind in kinds:
+        comps = h.comps(kind)
+        if kind == 'struct' and U.rec_sites(h.cases['struct'][0]):
+            continue      # recursed field by field: no leaf here
+        if k >= len(comps):
+            r.bad(m, h.where, f"generated {fname}: {kind} leaf", f"the {kind} case returns {show(h.cases[kind][0])}: "
+                  f"component {k} (the statements of {fname}) is missing", h.fdef.lineno)
+            continue
+        t = one_item(comps[k])
+        cons0 = f"generated {fname}: {kind} leaf"
+        if t is None:
+            r.bad(m, h.where, cons0, f"the {kind} case emits {show(comps[k])}: not exactly one leaf action",
+                  h.fdef.lineno)
+            continue
+        if t in done:
+            r.ok(m, h.where, cons0 + ' (same template as the Bits leaf)', nontrivial=False)
+            continue
+        done.append(t)
+        pr, src = leaf_problems(fname, compose(h, t, rec), key)
+        cons = f"{cons0}: {show(t)}"
+        if pr:
+            r.bad(m, h.where, cons, '; '.join(pr), h.fdef.lineno)
+        else:
+            r.ok(m, h.where, cons)
+
+
 def _clone_list_wrapper(r, m, h):
     v = h.cases['list'][0]
     cons = "clone list case: list literal of the element copies"
@@ -803,7 +838,7 @@ def _clone_list_wrapper(r, m, h):
     ok = err is None and isinstance(e, ast.List) and len(e.elts) == 1 and isinstance(e.elts[0], ast.Name)
     ji = join_info(hl.value(e.elts[0].id)) if ok else None
     if ji is None:
-        r.bad(m, h.qual, cons, f"the list case emits `{src}`, not `[<copy of element 0>, <copy of element 1>, ...]`",
+        r.bad(m, h.where, cons, f"the list case emits `{src}`, not `[<copy of element 0>, <copy of element 1>, ...]`",
               h.fdef.lineno)
         return
     sep, rev, seq = ji
@@ -817,9 +852,9 @@ def _clone_list_wrapper(r, m, h):
             and not ents[0][2]):
         pr.append(f"elements are {show(seq)}: not exactly one copy per element")
     if pr:
-        r.bad(m, h.qual, cons, '; '.join(pr), h.fdef.lineno)
+        r.bad(m, h.where, cons, '; '.join(pr), h.fdef.lineno)
     else:
-        r.ok(m, h.qual, cons)
+        r.ok(m, h.where, cons)
 
 
 def from_bits_parts(A):
@@ -879,95 +914,97 @@ def _from_bits_leaf(r, A):
             r.bad(m, g.name, cons, '; '.join(pr), g.fdef.lineno)
         else:
             r.ok(m, g.name, cons)
-    # name table -> globals (inverted, injective)
-    table = None
-    v, ev = h.cases['struct']
-    t = one_item(h.comps('struct')[si])
-    cons = "from_bits struct case: <class name>(<one argument per nested field>)"
-    if t is None:
-        r.bad(m, h.qual, cons, f"the struct case emits {show(h.comps('struct')[si])}, not one constructor call", h.fdef.lineno)
-    else:
-        hl2 = U.Holes()
-        e, src2, err2 = U.parse_text(t, hl2, 'eval')
-        ok = err2 is None and isinstance(e, ast.Call) and isinstance(e.func, ast.Name) and not e.keywords \
-            and len(e.args) == 1 and isinstance(e.args[0], ast.Name) and hl2.value(e.func.id) is not None
-        ji = join_info(hl2.value(e.args[0].id)) if ok else None
+    h0 = h
+    for h in h0.variants():
+        # name table -> globals (inverted, injective)
+        table = None
+        v, ev = h.cases['struct']
+        t = one_item(h.comps('struct')[si])
+        cons = "from_bits struct case: <class name>(<one argument per nested field>)"
+        if t is None:
+            r.bad(m, h.where, cons, f"the struct case emits {show(h.comps('struct')[si])}, not one constructor call", h.fdef.lineno)
+        else:
+            hl2 = U.Holes()
+            e, src2, err2 = U.parse_text(t, hl2, 'eval')
+            ok = err2 is None and isinstance(e, ast.Call) and isinstance(e.func, ast.Name) and not e.keywords \
+                and len(e.args) == 1 and isinstance(e.args[0], ast.Name) and hl2.value(e.func.id) is not None
+            ji = join_info(hl2.value(e.args[0].id)) if ok else None
+            if ji is None:
+                r.bad(m, h.where, cons, f"the struct case emits `{src2}`", h.fdef.lineno)
+            else:
+                sep, rev, seq = ji
+                pr = []
+                if sep.strip() != ',':
+                    pr.append(f"arguments joined with {sep!r}")
+                if rev:
+                    pr.append("nested constructor arguments are reversed w.r.t. the nested field order")
+                ents = list(U.flatten(seq.segs))
+                if not (len(ents) == 1 and isinstance(ents[0][0], Splice) and len(ents[0][1]) == 1 and not ents[0][2]):
+                    pr.append(f"arguments are {show(seq)}: not exactly one per nested field")
+                table, p2 = name_bound_to_type(hl2.value(e.func.id), ev, h.T)
+                pr += p2
+                if pr:
+                    r.bad(m, h.where, cons, '; '.join(pr), h.fdef.lineno)
+                else:
+                    r.ok(m, h.where, cons)
+        cons = "from_bits globals: inverted name table"
+        gl = fn.globs
+        pr = []
+        ok = isinstance(gl, DictV) and len(gl.segs) == 1 and isinstance(gl.segs[0], LoopSeg) and len(gl.segs[0].segs) == 1 \
+            and isinstance(gl.segs[0].segs[0], Item)
+        if not ok:
+            pr.append(f"globals of the generated from_bits are {show(gl)}, not the inverted name table")
+        else:
+            Lg = gl.segs[0].loop
+            src_d = Lg.space.d if isinstance(Lg.space, ItemsSp) else None
+            if not (isinstance(src_d, DictV) and table is not None and src_d.name == table.name):
+                pr.append(f"globals are built from {show(Lg.space)}, not from the table the struct case registers its names in")
+            if gl.segs[0].segs[0].v != Tup((LoopVar(Lg, 'val'), LoopVar(Lg, 'key'))):
+                pr.append("globals do not map name -> type (the table type -> name is not inverted)")
+            if table is not None and not any(
+                    isinstance(a[0], Cmp) and a[0].op == 'Eq' and {type(a[0].l), type(a[0].r)} == {Len} and not a[1] and not a[2]
+                    and {show(a[0].l), show(a[0].r)} >= {show(Len(gl))} for a in g.ev.asserts):
+                pr.append("no assertion that the inversion is injective (two types registered under one name would "
+                          "silently construct the wrong class)")
+        if pr:
+            r.bad(m, g.name, cons, '; '.join(pr), g.fdef.lineno)
+        else:
+            r.ok(m, g.name, cons)
+        # list case: one list literal
+        t = one_item(h.comps('list')[si])
+        cons = "from_bits list case: [<one argument per element>]"
+        hl3 = U.Holes()
+        e, src3, err3 = U.parse_text(t, hl3, 'eval') if t is not None else (None, show(h.comps('list')[si]), 'x')
+        ok = err3 is None and isinstance(e, ast.List) and len(e.elts) == 1 and isinstance(e.elts[0], ast.Name)
+        ji = join_info(hl3.value(e.elts[0].id)) if ok else None
         if ji is None:
-            r.bad(m, h.qual, cons, f"the struct case emits `{src2}`", h.fdef.lineno)
+            r.bad(m, h.where, cons, f"the list case emits `{src3}`, not one list literal", h.fdef.lineno)
         else:
             sep, rev, seq = ji
+            ents = list(U.flatten(seq.segs))
             pr = []
             if sep.strip() != ',':
-                pr.append(f"arguments joined with {sep!r}")
-            if rev:
-                pr.append("nested constructor arguments are reversed w.r.t. the nested field order")
-            ents = list(U.flatten(seq.segs))
+                pr.append(f"elements joined with {sep!r}")
             if not (len(ents) == 1 and isinstance(ents[0][0], Splice) and len(ents[0][1]) == 1 and not ents[0][2]):
-                pr.append(f"arguments are {show(seq)}: not exactly one per nested field")
-            table, p2 = name_bound_to_type(hl2.value(e.func.id), ev, h.T)
-            pr += p2
+                pr.append(f"elements are {show(seq)}: not exactly one per list element")
             if pr:
-                r.bad(m, h.qual, cons, '; '.join(pr), h.fdef.lineno)
+                r.bad(m, h.where, cons, '; '.join(pr), h.fdef.lineno)
             else:
-                r.ok(m, h.qual, cons)
-    cons = "from_bits globals: inverted name table"
-    gl = fn.globs
-    pr = []
-    ok = isinstance(gl, DictV) and len(gl.segs) == 1 and isinstance(gl.segs[0], LoopSeg) and len(gl.segs[0].segs) == 1 \
-        and isinstance(gl.segs[0].segs[0], Item)
-    if not ok:
-        pr.append(f"globals of the generated from_bits are {show(gl)}, not the inverted name table")
-    else:
-        Lg = gl.segs[0].loop
-        src_d = Lg.space.d if isinstance(Lg.space, ItemsSp) else None
-        if not (isinstance(src_d, DictV) and table is not None and src_d.name == table.name):
-            pr.append(f"globals are built from {show(Lg.space)}, not from the table the struct case registers its names in")
-        if gl.segs[0].segs[0].v != Tup((LoopVar(Lg, 'val'), LoopVar(Lg, 'key'))):
-            pr.append("globals do not map name -> type (the table type -> name is not inverted)")
-        if table is not None and not any(
-                isinstance(a[0], Cmp) and a[0].op == 'Eq' and {type(a[0].l), type(a[0].r)} == {Len} and not a[1] and not a[2]
-                and {show(a[0].l), show(a[0].r)} >= {show(Len(gl))} for a in g.ev.asserts):
-            pr.append("no assertion that the inversion is injective (two types registered under one name would "
-                      "silently construct the wrong class)")
-    if pr:
-        r.bad(m, g.name, cons, '; '.join(pr), g.fdef.lineno)
-    else:
-        r.ok(m, g.name, cons)
-    # list case: one list literal
-    t = one_item(h.comps('list')[si])
-    cons = "from_bits list case: [<one argument per element>]"
-    hl3 = U.Holes()
-    e, src3, err3 = U.parse_text(t, hl3, 'eval') if t is not None else (None, show(h.comps('list')[si]), 'x')
-    ok = err3 is None and isinstance(e, ast.List) and len(e.elts) == 1 and isinstance(e.elts[0], ast.Name)
-    ji = join_info(hl3.value(e.elts[0].id)) if ok else None
-    if ji is None:
-        r.bad(m, h.qual, cons, f"the list case emits `{src3}`, not one list literal", h.fdef.lineno)
-    else:
-        sep, rev, seq = ji
-        ents = list(U.flatten(seq.segs))
-        pr = []
-        if sep.strip() != ',':
-            pr.append(f"elements joined with {sep!r}")
-        if not (len(ents) == 1 and isinstance(ents[0][0], Splice) and len(ents[0][1]) == 1 and not ents[0][2]):
-            pr.append(f"elements are {show(seq)}: not exactly one per list element")
-        if pr:
-            r.bad(m, h.qual, cons, '; '.join(pr), h.fdef.lineno)
+                r.ok(m, h.where, cons, note='reversed' if rev else 'in consumption order')
+        # bits leaf: a slice of the packed value
+        t = one_item(h.comps('bits')[si])
+        cons = "from_bits Bits leaf: other[lo:hi]"
+        hl4 = U.Holes()
+        e, src4, err4 = U.parse_text(t, hl4, 'eval') if t is not None else (None, show(h.comps('bits')[si]), 'x')
+        ok = err4 is None and isinstance(e, ast.Subscript) and isinstance(e.value, ast.Name) and isinstance(e.slice, ast.Slice) \
+            and e.slice.step is None and e.slice.lower is not None and e.slice.upper is not None
+        if not ok:
+            r.bad(m, h.where, cons, f"the Bits leaf emits `{src4}`, not a slice of the packed value", h.fdef.lineno)
+        elif other is not None and e.value.id != other:
+            r.bad(m, h.where, cons, f"the leaf slices `{e.value.id}`, the generated function's packed operand is `{other}`",
+                  h.fdef.lineno)
         else:
-            r.ok(m, h.qual, cons, note='reversed' if rev else 'in consumption order')
-    # bits leaf: a slice of the packed value
-    t = one_item(h.comps('bits')[si])
-    cons = "from_bits Bits leaf: other[lo:hi]"
-    hl4 = U.Holes()
-    e, src4, err4 = U.parse_text(t, hl4, 'eval') if t is not None else (None, show(h.comps('bits')[si]), 'x')
-    ok = err4 is None and isinstance(e, ast.Subscript) and isinstance(e.value, ast.Name) and isinstance(e.slice, ast.Slice) \
-        and e.slice.step is None and e.slice.lower is not None and e.slice.upper is not None
-    if not ok:
-        r.bad(m, h.qual, cons, f"the Bits leaf emits `{src4}`, not a slice of the packed value", h.fdef.lineno)
-    elif other is not None and e.value.id != other:
-        r.bad(m, h.qual, cons, f"the leaf slices `{e.value.id}`, the generated function's packed operand is `{other}`",
-              h.fdef.lineno)
-    else:
-        r.ok(m, h.qual, cons + f": {show(t)}")
+            r.ok(m, h.where, cons + f": {show(t)}")
 
 
 def from_list_reversed(A):
@@ -1044,20 +1081,20 @@ def rule_width(repo):
             ss = U.rec_sites(comps[si])
             if not ss or any(s.rec != rec or s.loops != (comps[ci].loop,) for s in ss):
                 pr.append("operands and positions come from different recursive calls / loops")
-        (r.bad(m, h.qual, cons, '; '.join(pr), h.fdef.lineno) if pr else r.ok(m, h.qual, cons))
+        (r.bad(m, h.where, cons, '; '.join(pr), h.fdef.lineno) if pr else r.ok(m, h.where, cons))
     leaf = h.comps('bits')
     cons = f"to_bits Bits leaf: position {show(leaf[ci])}"
     want = U.lin(Sym(h.counter)).add(U.lin(Attr(h.T, 'nbits')))
     if U.lin(leaf[ci]) != want:
-        r.bad(m, h.qual, cons, f"a leaf advances the position to {show(leaf[ci])}, must be {show(want)}: the reported nbits "
+        r.bad(m, h.where, cons, f"a leaf advances the position to {show(leaf[ci])}, must be {show(want)}: the reported nbits "
               f"differs from the sum of the leaf widths", h.fdef.lineno)
     else:
-        r.ok(m, h.qual, cons)
+        r.ok(m, h.where, cons)
     cons = "to_bits Bits leaf: exactly one concat operand"
     if one_item(leaf[si]) is None:
-        r.bad(m, h.qual, cons, f"a leaf contributes {show(leaf[si])}", h.fdef.lineno)
+        r.bad(m, h.where, cons, f"a leaf contributes {show(leaf[si])}", h.fdef.lineno)
     else:
-        r.ok(m, h.qual, cons, nontrivial=False)
+        r.ok(m, h.where, cons, nontrivial=False)
     # ---- from_bits
     g, h, ci, si = from_bits_parts(A)
     L, vrec = top_visit(g, h)
@@ -1099,29 +1136,29 @@ def rule_width(repo):
             ss = U.rec_sites(comps[si])
             if not ss or any(s.rec != rec or s.loops != (comps[ci].loop,) for s in ss):
                 pr.append("arguments and positions come from different recursive calls / loops")
-        (r.bad(m, h.qual, cons, '; '.join(pr), h.fdef.lineno) if pr else r.ok(m, h.qual, cons))
+        (r.bad(m, h.where, cons, '; '.join(pr), h.fdef.lineno) if pr else r.ok(m, h.where, cons))
         cons = f"from_bits {kind} case: exactly one constructor argument"
         if one_item(comps[si]) is None:
-            r.bad(m, h.qual, cons, f"the {kind} case returns {show(comps[si])}: the caller (reversal of list elements, "
+            r.bad(m, h.where, cons, f"the {kind} case returns {show(comps[si])}: the caller (reversal of list elements, "
                   f"positional constructor arguments) relies on one string per element", h.fdef.lineno)
         else:
-            r.ok(m, h.qual, cons, nontrivial=False)
+            r.ok(m, h.where, cons, nontrivial=False)
     leaf = h.comps('bits')
     want = U.lin(Sym(h.counter)).add(U.lin(Attr(h.T, 'nbits')), -1)
     cons = f"from_bits Bits leaf: returns position {show(leaf[ci])}"
     if U.lin(leaf[ci]) != want:
-        r.bad(m, h.qual, cons, f"a leaf moves the position to {show(leaf[ci])}, must be {show(want)}", h.fdef.lineno)
+        r.bad(m, h.where, cons, f"a leaf moves the position to {show(leaf[ci])}, must be {show(want)}", h.fdef.lineno)
     else:
-        r.ok(m, h.qual, cons)
+        r.ok(m, h.where, cons)
     t = one_item(leaf[si])
     cons = "from_bits Bits leaf: slice bounds"
     if t is None:
-        r.bad(m, h.qual, cons, f"a leaf contributes {show(leaf[si])}, not one slice", h.fdef.lineno)
+        r.bad(m, h.where, cons, f"a leaf contributes {show(leaf[si])}, not one slice", h.fdef.lineno)
     else:
         hl = U.Holes()
         e, src, err = U.parse_text(t, hl, 'eval')
         if err or not (isinstance(e, ast.Subscript) and isinstance(e.slice, ast.Slice)):
-            r.bad(m, h.qual, cons, f"the leaf emits `{src}`, not a slice", h.fdef.lineno)
+            r.bad(m, h.where, cons, f"the leaf emits `{src}`, not a slice", h.fdef.lineno)
         else:
             def bound(x):
                 if x is None:
@@ -1134,11 +1171,11 @@ def rule_width(repo):
             lo, hi = bound(e.slice.lower), bound(e.slice.upper)
             hi_want = U.lin(Sym(h.counter))
             if lo != want or hi != hi_want or e.slice.step is not None:
-                r.bad(m, h.qual, cons + f": {show(t)}", f"the leaf is cut from [{show(lo) if isinstance(lo, Lin) else lo}:"
+                r.bad(m, h.where, cons + f": {show(t)}", f"the leaf is cut from [{show(lo) if isinstance(lo, Lin) else lo}:"
                       f"{show(hi) if isinstance(hi, Lin) else hi}], must be [{show(want)}:{show(hi_want)}] (the nbits bits "
                       f"below the running position)", h.fdef.lineno)
             else:
-                r.ok(m, h.qual, cons + f": {show(t)}")
+                r.ok(m, h.where, cons + f": {show(t)}")
     r.evaluations = A.steps()
     r.require_floor(12)
     return r
